@@ -101,6 +101,7 @@ type c13Loop struct {
 	cursorAfter bool // a SetLastSlashed* call follows the inner loop inside the outer loop
 	fillKey     string // field of the stored confirm the map is keyed by: `confirmOracleMap[confirm.<F>] = …`
 	lookupKey   string // field of the oracle record looked up: `confirmOracleMap[oracles[i].<F>]`
+	domain      string // what the inner loop walks: the online-oracle snapshot or the members of the oracle set
 }
 
 func keyField(f string) string {
@@ -115,8 +116,24 @@ func keyField(f string) string {
 	return ".other"
 }
 
+// fillKeyOf: `confirmOracleMap[confirm.<F>] = …` among the statements before the inner loop
+func (c *ctxT) fillKeyOf(stmts []ast.Stmt, res *c13Loop) {
+	for _, st := range stmts {
+		ast.Inspect(st, func(n ast.Node) bool {
+			if as, ok := n.(*ast.AssignStmt); ok && len(as.Lhs) == 1 {
+				if ix, ok := as.Lhs[0].(*ast.IndexExpr); ok && squash(c.src(ix.X)) == "confirmOracleMap" {
+					if se, ok := ix.Index.(*ast.SelectorExpr); ok && squash(c.src(se.X)) == "confirm" {
+						res.fillKey = keyField(se.Sel.Name)
+					}
+				}
+			}
+			return true
+		})
+	}
+}
+
 func (c *ctxT) c13SlashLoop(name string) c13Loop {
-	res := c13Loop{startSkip: ".other", arg: ".other", fillKey: ".other", lookupKey: ".other"}
+	res := c13Loop{startSkip: ".other", arg: ".other", fillKey: ".other", lookupKey: ".other", domain: ".other"}
 	fd := c.findFunc(c13Keeper, "Keeper", name)
 	if fd == nil || fd.Body == nil {
 		return res
@@ -140,7 +157,64 @@ func (c *ctxT) c13SlashLoop(name string) c13Loop {
 		}
 	}
 	if inner == nil {
+		// inner loop over the members of the object: `for _, member := range <obj>.Members { … }`
+		for i, st := range outer.Body.List {
+			r, ok := st.(*ast.RangeStmt)
+			if !ok || !strings.HasSuffix(squash(c.src(r.X)), ".Members") {
+				continue
+			}
+			res.domain = ".setMembers"
+			c.fillKeyOf(outer.Body.List[:i], &res)
+			for _, st2 := range outer.Body.List[i+1:] {
+				if strings.Contains(c.src(st2), "SetLastSlashed") {
+					res.cursorAfter = true
+				}
+			}
+			elem := squash(c.src(r.Value))
+			resolved := map[string]string{} // variable ← unchecked / checked index lookup
+			for _, bst := range r.Body.List {
+				switch x := bst.(type) {
+				case *ast.IfStmt:
+					if x.Init != nil && strings.Contains(squash(c.src(x.Init)), "confirmOracleMap["+elem+".") && len(x.Body.List) == 1 {
+						init := squash(c.src(x.Init))
+						f := init[strings.Index(init, "confirmOracleMap["+elem+".")+len("confirmOracleMap["+elem+"."):]
+						if j := strings.Index(f, "]"); j >= 0 {
+							res.lookupKey = keyField(f[:j])
+						}
+						if br, ok := x.Body.List[0].(*ast.BranchStmt); ok && br.Tok == token.CONTINUE {
+							res.missing = squash(c.src(x.Cond)) == "ok" // confirmed → continue, i.e. slash when missing
+						}
+					}
+				case *ast.AssignStmt:
+					if len(x.Lhs) == 2 && len(x.Rhs) == 1 && strings.Contains(squash(c.src(x.Rhs[0])), "GetOracleAddrByExternalAddr(ctx, "+elem+".ExternalAddress)") {
+						if squash(c.src(x.Lhs[1])) == "_" {
+							resolved[squash(c.src(x.Lhs[0]))] = ".indexLookupUnchecked"
+						} else {
+							resolved[squash(c.src(x.Lhs[0]))] = ".other" // a checked lookup: shape not modelled
+						}
+					}
+				}
+			}
+			ast.Inspect(r.Body, func(n ast.Node) bool {
+				ce, ok := n.(*ast.CallExpr)
+				if !ok {
+					return true
+				}
+				if se, ok := ce.Fun.(*ast.SelectorExpr); ok && se.Sel.Name == "SlashOracle" && len(ce.Args) == 2 {
+					res.argSrc = squash(c.src(ce.Args[1]))
+					v := strings.TrimSuffix(res.argSrc, ".String()")
+					if a, ok := resolved[v]; ok {
+						res.arg = a
+					}
+				}
+				return true
+			})
+			return res
+		}
 		return res
+	}
+	if be, ok := inner.Cond.(*ast.BinaryExpr); ok && squash(c.src(be)) == "i < len(oracles)" {
+		res.domain = ".onlineSnapshot"
 	}
 	for _, st := range outer.Body.List[:innerIdx] {
 		ast.Inspect(st, func(n ast.Node) bool {
@@ -265,8 +339,8 @@ func extractC13(c *ctxT) {
 	var sb strings.Builder
 	sb.WriteString("namespace FxVerif.Gen.C13\n\n")
 	sb.WriteString("inductive Cmp where | gt | ge | lt | le | other\n  deriving DecidableEq, Repr\n\n")
-	sb.WriteString("/-- what a slashing loop passes to `SlashOracle` -/\ninductive SlashArg where | oracleAddress | protoText | other\n  deriving DecidableEq, Repr\n\n")
-	sb.WriteString("/-- `UnbondedOracle`: how the result of `GetUnbondingDelegation` is tested -/\ninductive UbdTest where\n  | rejectIfExists   -- an unbonding delegation still exists → error\n  | rejectIfMissing  -- `err != nil → return err`: error when there is none (SDK ≥ 0.50 returns ErrNoUnbondingDelegation)\n  | none\n  deriving DecidableEq, Repr\n\n")
+	sb.WriteString("/-- what a slashing loop passes to `SlashOracle` -/\ninductive SlashArg where\n  | oracleAddress          -- the record's own address\n  | protoText              -- the record's proto text (`String()`)\n  | indexLookupUnchecked   -- `addr, _ := GetOracleAddrByExternalAddr(…)`; `addr.String()` — empty when the index entry is gone\n  | other\n  deriving DecidableEq, Repr\n\n")
+	sb.WriteString("/-- `UnbondedOracle`: how the result of `GetUnbondingDelegation` is tested -/\ninductive UbdTest where\n  | rejectIfExists   -- an unbonding delegation still exists → error\n  | rejectIfImmature -- only an entry whose completion time is after the block time is refused (matured, unpaid entries pass)\n  | rejectIfMissing  -- `err != nil → return err`: error when there is none (SDK ≥ 0.50 returns ErrNoUnbondingDelegation)\n  | none\n  | other\n  deriving DecidableEq, Repr\n\n")
 
 	// --- constants
 	maxOracle, cap := -1, -1
@@ -324,6 +398,7 @@ func extractC13(c *ctxT) {
 	sb.WriteString("\n")
 
 	// --- slashing loops
+	sb.WriteString("/-- what the inner loop of a slashing function walks -/\ninductive LoopDomain where\n  | onlineSnapshot   -- `for i := 0; i < len(oracles); i++` over GetAllOracles(ctx, true) taken at the start of `slashing`\n  | setMembers       -- `for _, member := range oracleSet.Members`\n  | other\n  deriving DecidableEq, Repr\n\n")
 	loops := map[string]c13Loop{}
 	allMissing := true
 	for _, nm := range []string{"oracleSetSlashing", "batchSlashing", "bridgeCallSlashing"} {
@@ -335,7 +410,7 @@ func extractC13(c *ctxT) {
 	for _, nm := range []string{"oracleSetSlashing", "batchSlashing", "bridgeCallSlashing"} {
 		l := loops[nm]
 		fmt.Fprintf(&sb, "/-- %s: `if uint64(oracles[i].StartHeight) <cmp> obj.Height { continue }`; SlashOracle(ctx, %s) -/\n", nm, l.argSrc)
-		fmt.Fprintf(&sb, "def %sStartSkip : Cmp := %s\ndef %sSlashArg : SlashArg := %s\ndef %sCursorSetAfterLoop : Bool := %s\n", pref[nm], l.startSkip, pref[nm], l.arg, pref[nm], lb(l.cursorAfter))
+		fmt.Fprintf(&sb, "def %sStartSkip : Cmp := %s\ndef %sSlashArg : SlashArg := %s\ndef %sCursorSetAfterLoop : Bool := %s\ndef %sLoopDomain : LoopDomain := %s\n", pref[nm], l.startSkip, pref[nm], l.arg, pref[nm], lb(l.cursorAfter), pref[nm], l.domain)
 	}
 	fmt.Fprintf(&sb, "/-- all three loops slash when the oracle's key is NOT among the stored confirms (`!ok`) -/\ndef slashWhenConfirmMissing : Bool := %s\n\n", lb(allMissing))
 	sb.WriteString("/-- which field keys the per-object map of confirms / which field of the oracle record is looked up in it -/\ninductive KeyField where | external | bridger | oracle | other\n  deriving DecidableEq, Repr\n\n")
@@ -418,6 +493,25 @@ func extractC13(c *ctxT) {
 				ubd = ".rejectIfExists"
 			case (ubdSrc == "found" || ubdSrc == "ok") && blockReturnsErr(ifs.Body):
 				ubd = ".rejectIfExists"
+			}
+		}
+	}
+	if fd := c.findFunc(c13Keeper, "MsgServer", "UnbondedOracle"); fd != nil && ubd == ".none" {
+		// `ubd, err := GetUnbondingDelegation(…)` followed by `for _, entry := range ubd.Entries { if !entry.IsMature(…) { return err } }`
+		for _, st := range fd.Body.List {
+			r, ok := st.(*ast.RangeStmt)
+			if !ok || !strings.HasSuffix(squash(c.src(r.X)), ".Entries") {
+				continue
+			}
+			for _, bst := range r.Body.List {
+				if ifs, ok := bst.(*ast.IfStmt); ok && blockReturnsErr(ifs.Body) {
+					ubdSrc = "range Entries: " + squash(c.src(ifs.Cond))
+					if strings.HasPrefix(squash(c.src(ifs.Cond)), "!") && strings.Contains(ubdSrc, ".IsMature(ctx.BlockTime())") {
+						ubd = ".rejectIfImmature"
+					} else {
+						ubd = ".other"
+					}
+				}
 			}
 		}
 	}
